@@ -372,7 +372,7 @@ def case_polygon(case):
         if not abs(float(back) - val) <= TOL * (1 + val) * math.cosh(val) ** 2:
             v.append({"key": "polygon/formulas-inverse/radius-angle-radius",
                       "msg": "regular_polygon_radius(%d, polygon_interior_angle(%d, %r)) = %.12g" % (ns, ns, val, float(back))})
-    return {"v": v, "t": t, "o": "%d/%s/%.4f/%.4f" % (ns, mode, r, a), "nt": True}
+    return {"v": v, "t": t, "o": "%d/%d/%s/%.4f/%.4f" % (ns, dim, mode, r, a), "nt": True}
 
 
 # ------------------------------------------------------------------------------------------
@@ -380,7 +380,7 @@ def run(ctx):
     q = ctx.quick
     seed = ctx.seed
     dims = [2, 3, 4] if q else [2, 3, 4, 5]
-    mgen = 4 if q else 10
+    mgen = 4 if q else 14
     ctx.rule = ("lattice points CORNER(n)+GENERIC(n) (Klein radius <= 0.9), every point / ordered pair / triple, every "
                 "representative lambda in {1,-1,2.5,-0.3}, t in %r, force_oriented in {default, True, False}; regular polygons "
                 "for every n_sides in 3..12 x 5 admissible angles / 3 radii.  Non-trivial: every case except the origin in "
@@ -426,12 +426,12 @@ def run(ctx):
             poly.append({"sides": ns, "mode": "angle", "value": f * amax, "dimension": 2})
         for r in (0.3, 1.0, 2.5):
             poly.append({"sides": ns, "mode": "radius", "value": r, "dimension": 2})
-    if not q:
-        for ns in (3, 4, 7, 12):
+    for ns in ((3, 5) if q else (3, 4, 7, 12)):
+        if True:
             amax = (ns - 2) * math.pi / ns
-            for dim in (3, 4):
+            for dim in ((3,) if q else (3, 4, 5)):
                 poly.append({"sides": ns, "mode": "angle", "value": 0.5 * amax, "dimension": dim})
                 poly.append({"sides": ns, "mode": "radius", "value": 1.0, "dimension": dim})
     ctx.product("regular-polygons", "checks.c13:case_polygon", poly, chunk=2,
                 domains={"n_sides": "3..12", "angle fractions of (n-2)pi/n": [0.1, 0.3, 0.5, 0.7, 0.9], "radii": [0.3, 1.0, 2.5],
-                         "dimension": [2] if q else [2, 3, 4]})
+                         "dimension": [2, 3] if q else [2, 3, 4, 5]})
